@@ -481,8 +481,8 @@ def distance(idx0, idx1, ncol, latlon=False, transform=IDENTITY):
         dy = 0.0 if dr == 0 else degree_metres_y(lat) * yres
         dx = 0.0 if dc == 0 else degree_metres_x(lat) * xres
     else:
-        dy = xres
-        dx = yres
+        dy = yres
+        dx = xres
     return math.hypot(dy * dr, dx * dc)  # length
 
 
